@@ -235,7 +235,7 @@ class HostCase:
         for t in r.T.values():
             t.drain()
         form = self.rng.choice(['pickle', 'pickle', 'json', 'dict',
-                                'second_manager'])
+                                'second_manager', 'json_bytes'])
         if form == 'second_manager':
             # published by another manager object of the same class in this
             # very process (a write-only emitter next to the server): it is
@@ -261,8 +261,12 @@ class HostCase:
                 return False
             self.push(raws[0])
         else:
+            # ('json_bytes': what a bytes-only broker hands over for a
+            # message that an external process published as JSON)
             self.push(pickle.dumps(msg) if form == 'pickle' else (
-                json.dumps(msg) if form == 'json' else dict(msg)))
+                json.dumps(msg) if form == 'json' else (
+                    json.dumps(msg).encode('utf-8') if form == 'json_bytes'
+                    else dict(msg))))
         if self.listener_dead:
             self.fail('%s: the listener stopped' % where)
             return False
@@ -1079,6 +1083,7 @@ def run(ctx):
     ctx.require('redis_cases', 20)
     ctx.require('remote_callback_ids_checked', 10)
     ctx.require('sentinel_as_second_manager', 20)
+    ctx.require('sentinel_as_json_bytes', 20)
     ctx.require('callbacks_that_use_the_server_again', 10)
     ctx.require('callback_messages_not_naming_this_server', 20)
     k = 0
